@@ -40,6 +40,7 @@ type GangFacts struct{ GangActed, GangBound, GangNominated, GangVictim, Moved, E
 
 // CheckGangs is the C03 oracle on one cycle.
 func CheckGangs(w *World, rec *CycleRecord) ([]Finding, GangFacts) {
+	w = rec.Effective(w)
 	var out []Finding
 	var facts GangFacts
 	mins := w.PodSetMins()
